@@ -117,6 +117,27 @@ def run_one(ck, prog):
                 ds = T.call_blocks(c, dealloc)
                 ck.ob("C06.1", f"free-only-on-cas-failure|{p}", bool(fe) and bool(ds) and all(any(c.cfg.edge_dominates(e, d) for e in fe) for d in ds), fn=p, site=c.site(op.bb),
                       detail="the party that finds the flag already set (CAS failure) is the second to arrive and frees the block; freeing on the success edge (or unconditionally) frees it under the other party")
+                # on the thread's side nothing that can run user code follows the hand-over: a destructor of the closure's result that
+                # panics there enters the panic handler, which runs the release protocol a second time on a block already given away
+                if "spawn::{closure" in p or p.endswith("on_panic"):
+                    import re as _re
+                    after = c.cfg.reachable_from(op.bb) - {op.bb}
+                    user = []
+                    for b2 in fn["blocks"]:
+                        if b2["id"] not in after or b2.get("cleanup") or b2["id"] not in c.cfg.live_blocks():
+                            continue
+                        t2 = b2["term"]
+                        if t2["k"] == "drop":
+                            pl = t2.get("p") or t2.get("place") or {}
+                            ty = fn["locals"][pl.get("l", 0)]["ty"] if isinstance(pl, dict) and "l" in pl else ""
+                            if _re.search(r"\b[TF]\b", ty):
+                                user.append((b2["id"], f"drop of a {ty}"))
+                        elif t2["k"] == "call":
+                            cal = t2.get("callee") or ""
+                            if cal.endswith(("core::mem::drop", "ptr::drop_in_place", "FnOnce::call_once", "FnMut::call_mut", "Fn::call")) and _re.search(r"\b[TF]\b", str(t2.get("generic", "")) + " ".join(fn["locals"][l]["ty"] for a2 in t2.get("args", []) for l in ([a2["p"]["l"]] if a2.get("k") in ("move", "copy") else []))):
+                                user.append((b2["id"], cal))
+                    ck.ob("C06.1", f"no-user-code-after-the-hand-over|{p}", not user, fn=p, site=c.site(user[0][0]) if user else None,
+                          detail=f"after the hand-over flag was flipped the thread runs {[u[1] for u in user]}: user code that panics there makes the panic handler release the join block again")
             if op.op in ("store", "swap", "fetch_or", "fetch_and", "fetch_xor") and mentions(op.recv, c.prov, lambda z: z[0] == "call" and (z[1] or "").endswith("Tsm::get_sync")):
                 ck.ob("C06.1", f"flag-only-cas|{p}", False, fn=p, site=c.site(op.bb), detail=f"the hand-over flag is modified with `{op.op}`; only CAS(false->true) decides who frees")
     ck.ob("C06.1", "three-flag-cas-sites", flag_cas_fns == set(parties), detail=f"functions flipping the hand-over flag: {sorted(flag_cas_fns)}; expected exactly {sorted(parties)}")
